@@ -6,7 +6,7 @@ import numpy as np
 
 from symv.api import And, Implies, Not, Or, dist, dist2, eq, le
 from symv.engine import PathAbort
-from symv.runner import H
+from symv.runner import Direct, H
 from symv.trees import reals
 
 FUNCTIONS = ["swcgeom.utils.dsu.DisjointSetUnion.__init__", "find_parent", "union_sets", "is_same_set", "validate_node",
@@ -367,6 +367,48 @@ def h_reset_index(c, n, base):
 REACH = {"dsu_step": ["union.merge", "union.noop"], "checkers": ["cyclic", "forest", "trifurcation", "unsorted_tree"], "repair_frame": ["three_roots", "first_root_not_row0"],
          "reset_index": ["several_roots"]}
 _B = (0, 1, 5)
+def d_scale(tier):
+    """Auxiliary, NOT solver-based: the checkers on tables of 3000 nodes (a long neurite plus a late row that points back near its start)."""
+    import time
+
+    import numpy as np
+
+    from swcgeom.core.swc_utils import has_cyclic, is_single_root, is_sorted
+    from swcgeom.utils.dsu import DisjointSetUnion
+
+    out = []
+    t0 = time.time()
+    n = 3000
+    ids = np.arange(n, dtype=np.int32)
+    cases = {"neurite_then_branch_at_5": [-1] + list(range(n - 2)) + [5], "neurite_then_second_child_of_root": [-1] + list(range(n - 2)) + [0],
+             "long_cycle": [-1] + [n - 1] + list(range(1, n - 1))}
+    truth = {"neurite_then_branch_at_5": False, "neurite_then_second_child_of_root": False, "long_cycle": True}
+    for name, pid in cases.items():
+        try:
+            got = bool(has_cyclic((ids, np.array(pid, dtype=np.int32))))
+            ok, detail = got == truth[name], f"has_cyclic={got}, truth {truth[name]}"
+        except RecursionError as e:
+            ok, detail = False, "RecursionError"
+        out.append(dict(name="aux.has_cyclic_3000." + name, status="discharged" if ok else "violated", detail=detail, solver_s=0.0, sample=dict(kind="auxiliary_non_solver", detail=detail),
+                        replay=dict(reproduced=True, why=detail)))
+    try:
+        d = DisjointSetUnion(n)
+        for i in range(1, n):
+            d.union_sets(i - 1, i)
+        ok = d.is_same_set(0, n - 1) and all(d.find_parent(i) == d.find_parent(0) for i in (1, n // 2, n - 1))
+        detail = f"chain of {n} unions: same set {ok}"
+    except RecursionError:
+        ok, detail = False, "RecursionError in DisjointSetUnion"
+    out.append(dict(name="aux.dsu_chain_3000", status="discharged" if ok else "violated", detail=detail, solver_s=0.0, sample=dict(kind="auxiliary_non_solver", detail=detail, wall_s=round(time.time() - t0, 2)),
+                    replay=dict(reproduced=True, why=detail)))
+    return out
+
+
+def replay_direct(blob):
+    r = d_scale("quick")
+    return dict(reproduced=any(x["status"] == "violated" for x in r), results=r)
+
+
 HARNESSES = [
     H("dsu_step", h_dsu_step, quick=[dict(n=k, op=o) for k in (2, 3, 4) for o in ("union", "find", "same")], thorough=[dict(n=5, op=o) for o in ("union", "find", "same")], functions=FUNCTIONS,
       bounds="n<=4 (quick)/5 (thorough) elements; every valid parent-pointer forest, ranks symbolic integers under the invariant; arguments symbolic", validate=True),
@@ -383,4 +425,5 @@ HARNESSES = [
       thorough=[dict(n=4, base=b, mode=m) for b in (0, 5) for m in (False, "somas", "nearest")] + [dict(n=5, base=1, mode="nearest")], functions=FUNCTIONS,
       bounds="every forest with >=2 roots (row 0 a root) on n<=3-4 (quick)/4-5 rows written as SWC text with id base 0/1/5; two concrete coordinate layouts"),
     H("reset_index", h_reset_index, quick=[dict(n=3, base=b) for b in _B], thorough=[dict(n=4, base=b) for b in _B], functions=FUNCTIONS, bounds="every forest on n<=3/4 rows, id base 0/1/5"),
+    Direct("scale", d_scale, functions=FUNCTIONS, bounds="auxiliary concrete runs on 3000-node tables (not a solver claim)"),
 ]
